@@ -292,7 +292,7 @@ func keyCases(g *rig) {
 }
 
 func pasteCases(g *rig) {
-	for pi := 0; pi < 3; pi++ {
+	for pi := 0; pi < 4; pi++ {
 		on := pi == 1
 		var modes []string
 		if on {
@@ -301,7 +301,17 @@ func pasteCases(g *rig) {
 		if pi == 2 {
 			modes = []string{"\x1b[?2004h", "\x1b[?2004l"} // switched on and off again
 		}
+		if pi == 3 {
+			modes = []string{"\x1b[?2004h"}
+		}
 		g.freshModel(modes)
+		if pi == 3 {
+			// a paste was forwarded while the mode was on; then the child switched it off
+			g.m.Update(vaxis.PasteStartEvent{})
+			g.m.Update(vaxis.PasteEndEvent{})
+			g.written()
+			g.m.VerifFeed(ansi.CSI{Final: 'l', Intermediate: []rune("?"), Parameters: [][]int{{2004}}})
+		}
 		for i, ev := range []vaxis.Event{vaxis.PasteStartEvent{}, vaxis.PasteEndEvent{}} {
 			g.m.Update(ev)
 			b := g.written()
@@ -484,7 +494,7 @@ func main() {
 	n := r.Get("key_cases") + r.Get("paste_cases") + r.Get("mouse_cases")
 	r.Finish(explore.Coverage{
 		States: -1, Transitions: n, Traces: n, Evaluations: n,
-		Rule:       "keys {a-z, 0-9, 11 punctuation, 8 non-ASCII letters, arrows, Home, End, Ins, Del, PgUp, PgDn, F1-F12, Enter, Tab, Esc, Backspace, Space} x every subset of Shift/Alt/Ctrl that the xterm legacy encoding expresses unambiguously x decckm x deckpam (each set directly, or both set and the unwanted one reset again); paste start/end x bracketed-paste mode (off, on, on and off again); mouse buttons {left, middle, right, none, wheel up/down, 8-11} x press/release/motion x 3x3 positions x all 2^6 combinations of modes 1000/1002/1003/1006, alt-scroll and alternate screen, each reached in three ways (set only; all four set in either order and the others reset again); bytes written to the pipe standing in for the PTY are re-parsed by a real Vaxis on a fake console; distinct = cases that passed",
+		Rule:       "keys {a-z, 0-9, 11 punctuation, 8 non-ASCII letters, arrows, Home, End, Ins, Del, PgUp, PgDn, F1-F12, Enter, Tab, Esc, Backspace, Space} x every subset of Shift/Alt/Ctrl that the xterm legacy encoding expresses unambiguously x decckm x deckpam (each set directly, or both set and the unwanted one reset again); paste start/end x bracketed-paste mode (off, on, on and off again, on with a forwarded paste and then off); mouse buttons {left, middle, right, none, wheel up/down, 8-11} x press/release/motion x 3x3 positions x all 2^6 combinations of modes 1000/1002/1003/1006, alt-scroll and alternate screen, each reached in three ways (set only; all four set in either order and the others reset again); bytes written to the pipe standing in for the PTY are re-parsed by a real Vaxis on a fake console; distinct = cases that passed",
 		Exhaustive: true,
 		Assumptions: []string{"chords the legacy encoding cannot express (Ctrl+Shift+letter, Alt+Shift+letter, Alt+Ctrl+letter, Ctrl+h/i/j/m, modified Enter/Tab/Esc/Backspace/Space other than Shift+Tab, Shift/Ctrl+digit or punctuation) are outside the table",
 			"wheel to arrow-key translation under alt-scroll in the alternate screen is the widget's documented feature, not a mouse report",
